@@ -1,10 +1,75 @@
 import Pendulum.Drv.Util
-/-! request handler for property C08 (stub until the property is built) -/
+import Pendulum.Model.FmtParse
+/-! request handler for property C08
+  fmt <locale> <enc format> <offset s> <wall µs> <enc zone name> <enc abbreviation>      → ok <enc string> | err <Kind>
+  tostr <method> <offset s> <wall µs> <enc zone name> <enc abbreviation>                  → ok <enc string> | err <Kind>
+  fromfmt <locale> <enc format> <enc string> <now y> <now m> <now d>      (Formatter.parse)
+                                              → ok <y> <m> <d> <h> <mi> <s> <us> none|off:<s>|name:<enc> | err <Kind>
+  rt <locale> <enc format> <offset s> <wall µs> <enc zone name> <enc abbr> <now y> <now m> <now d>
+        (from_format(dt.format(fmt), fmt))     → ok <enc string> <y> <m> <d> <h> <mi> <s> <us> <offset s> | err <Kind> -/
 namespace Pendulum.Drv.C08
-open Pendulum Pendulum.Drv
+open Pendulum Pendulum.Drv Pendulum.Fmt
+
+def mkVal (off wall : Int) (zname abbr : String) : Val :=
+  let dayUs : Int := 86400000000
+  let days := wall / dayUs
+  let tod := wall % dayUs
+  let (y, m, d) := Cal.ord2ymd (Cal.epochOrd + days)
+  let secs := tod / 1000000
+  { y := y, mo := m, d := d, h := secs / 3600, mi := secs / 60 % 60, s := secs % 60, us := tod % 1000000,
+    off := off, zname := zname.toList, abbr := abbr.toList }
+
+def reply (r : Except String Str) : String :=
+  match r with
+  | .ok s => "ok " ++ encStr (String.ofList s)
+  | .error e => "err " ++ e
+
+def tzDesc : Option TzP → String
+  | none => "none"
+  | some (TzP.fixed o) => "off:" ++ toString o
+  | some (TzP.named n) => "name:" ++ encStr (String.ofList n)
+
+def resultInts (r : Result) : String :=
+  " ".intercalate ([r.year, r.month, r.day, r.hour, r.minute, r.second, r.microsecond].map toString)
 
 def handle (_zs : Zones) (ws : List String) : Option String :=
   match ws with
+  | ["fmt", loc, fmt, off, wall, zn, ab] => do
+    let fmt ← decStr fmt; let off ← off.toInt?; let wall ← wall.toInt?
+    let zn ← decStr zn; let ab ← decStr ab
+    match Gen.FormatLocales.find loc with
+    | none => some "err ValueError"
+    | some L => some (reply (format L (mkVal off wall zn ab) fmt.toList))
+  | ["tostr", method, off, wall, zn, ab] => do
+    let off ← off.toInt?; let wall ← wall.toInt?
+    let zn ← decStr zn; let ab ← decStr ab
+    some (reply (toStringHelper Gen.FormatLocales.find "en" (mkVal off wall zn ab) method))
+  | ["fromfmt", loc, fmt, str, ny, nm, nd] => do
+    let fmt ← decStr fmt; let str ← decStr str
+    let ny ← ny.toInt?; let nm ← nm.toInt?; let nd ← nd.toInt?
+    match Gen.FormatLocales.find loc with
+    | none => some "err ValueError"
+    | some L =>
+      match parse L str.toList fmt.toList ⟨ny, nm, nd⟩ with
+      | .ok r => some ("ok " ++ resultInts r ++ " " ++ tzDesc r.tz)
+      | .error e => some ("err " ++ e)
+  | ["rt", loc, fmt, off, wall, zn, ab, ny, nm, nd] => do
+    let fmt ← decStr fmt; let off ← off.toInt?; let wall ← wall.toInt?
+    let zn ← decStr zn; let ab ← decStr ab
+    let ny ← ny.toInt?; let nm ← nm.toInt?; let nd ← nd.toInt?
+    match Gen.FormatLocales.find loc with
+    | none => some "err ValueError"
+    | some L =>
+      match format L (mkVal off wall zn ab) fmt.toList with
+      | .error e => some ("err " ++ e)
+      | .ok s =>
+        match parse L s fmt.toList ⟨ny, nm, nd⟩ with
+        | .error e => some ("err " ++ e)
+        | .ok r =>
+          let o : Int := match r.tz with
+            | some (TzP.fixed o) => o
+            | _ => 0
+          some ("ok " ++ encStr (String.ofList s) ++ " " ++ resultInts r ++ " " ++ toString o)
   | _ => none
 
 end Pendulum.Drv.C08
